@@ -19,7 +19,7 @@ PROPERTY = "C08"
 ASSUMPTIONS = [
     "temperatures requested for insertion come from a finite alphabet derived from the table "
     "(above/below the range, 1/4 1/2 3/4 of every interval, every existing row, existing +-0.4 tol and +-3 tol)",
-    "initial tables are built by the real problem_table_algorithm / get_process_heat_cascade / get_additional_GCCs from lattice streams, "
+    "initial tables (one of them with a 0.5 mK interval) are built by the real problem_table_algorithm / get_process_heat_cascade / get_additional_GCCs from lattice streams, "
     "plus variants with only some columns populated (others NaN)",
     "row 0's interval width is not constrained (it has no row above; an existing repository test pins a non-zero value there)",
 ]
@@ -60,6 +60,8 @@ def initial_tables(inst, tier):
         [(T[4], T[1], cpu * (T[4] - T[1]), 0.0), (T[0], T[3], 2 * cpu * (T[3] - T[0]), 0.0), (T[2], T[2], -cpu * inst[1], 0.0)],
     ]
     out = []
+    # a table with a 0.5 mK interval (two stream bounds 5e-4 K apart, far above the 1e-6 tolerance, far below 1e-5 x T)
+    out.append({"streams": [(T[3], T[1], cpu * (T[3] - T[1]), 0.0), (T[1] + 5e-4, T[3], 2 * cpu * (T[3] - T[1]), 0.0)], "form": "pta"})
     for i, s in enumerate(sets):
         out.append({"streams": s, "form": "pta"})
     out.append({"streams": sets[1], "form": "cascade+gcc"})
@@ -92,7 +94,8 @@ def build(desc):
 
 
 def candidate_temps(T0: np.ndarray, inst):
-    """[4 outside] + [4 per interval: 1/4, 1/2, 3/4, 1/2+0.4 tol] + [5 per row: T, T+-0.4 tol, T+-3 tol]"""
+    """[4 outside] + [4 per interval: 1/4, 1/2, 3/4, 1/2+0.4 tol] + [7 per row: T, T+-0.4 tol, T+-0.8 tol, T+-3 tol]
+    (0.4 tol rounds to the row's own 6-dp key, 0.8 tol is still within tolerance but rounds to the neighbouring key)"""
     step = inst[1]
     c = [T0[0] + step, T0[0] + 2 * step, T0[-1] - step, T0[-1] - 2 * step]
     for a, b in zip(T0[:-1], T0[1:]):
@@ -100,7 +103,7 @@ def candidate_temps(T0: np.ndarray, inst):
             c.append(b + f * (a - b))
         c.append(b + 0.5 * (a - b) + 0.4 * TOL)       # a request within tolerance of another REQUESTED temperature
     for t in T0:
-        c.extend([t, t + 0.4 * TOL, t - 0.4 * TOL, t + 3 * TOL, t - 3 * TOL])
+        c.extend([t, t + 0.4 * TOL, t - 0.4 * TOL, t + 0.8 * TOL, t - 0.8 * TOL, t + 3 * TOL, t - 3 * TOL])
     return [float(x) for x in c]
 
 
@@ -112,13 +115,13 @@ def events(cands, max_len):
     for n in range(1, max_len + 1):
         yield from itertools.product(range(len(cands)), repeat=n)
     if max_len >= 2:
-        n_int = (len(cands) - 4) // 9          # 4 outside + 4 per interval + 5 per row (rows = intervals + 1)
+        n_int = (len(cands) - 4 - 7) // 11     # 4 outside + 4 per interval + 7 per row (rows = intervals + 1)
         for k in range(n_int):
             four = [4 + 4 * k + j for j in range(4)]
             for trip in itertools.product(four, repeat=3):
                 if len(set(trip)) >= 2:
                     yield trip
-        mixed = [0, 2] + [4 + 4 * k + 1 for k in range(n_int)] + [3, 1, 0, 5] + list(range(4 + 4 * n_int, len(cands), 5))
+        mixed = [0, 2] + [4 + 4 * k + 1 for k in range(n_int)] + [3, 1, 0, 5] + list(range(4 + 4 * n_int, len(cands), 7))
         yield tuple(mixed)
         yield tuple(reversed(mixed))
 
